@@ -407,3 +407,93 @@ def normalise_polarity(tree):
     p = _Polarity()
     p.visit(tree)
     return p.n
+
+
+# ---------------------------------------------------------------------------------------------------------------------
+# orientation of == / != (a == b and b == a are the same test: equality is symmetric for every value the package compares)
+# ---------------------------------------------------------------------------------------------------------------------
+CMP_TABLE = os.path.join(os.path.dirname(os.path.abspath(__file__)), "compare_table.json")
+
+
+def _cmp_key(op, l, r):
+    return "%s|%s|%s" % (type(op).__name__, ast.dump(l), ast.dump(r))
+
+
+MIRROR = {ast.Eq: ast.Eq, ast.NotEq: ast.NotEq, ast.Lt: ast.Gt, ast.Gt: ast.Lt, ast.LtE: ast.GtE, ast.GtE: ast.LtE}
+
+
+def compare_table_of(tree):
+    """the two-operand comparisons (== != < <= > >=) of a module in the orientation they are written in (operands without positions)"""
+    return sorted({_cmp_key(n.ops[0], n.left, n.comparators[0]) for n in ast.walk(tree)
+                   if isinstance(n, ast.Compare) and len(n.ops) == 1 and type(n.ops[0]) in MIRROR})
+
+
+def load_compare_table():
+    if not os.path.exists(CMP_TABLE):
+        return {}
+    return {k: set(v) for k, v in json.load(open(CMP_TABLE)).items()}
+
+
+def orient_comparisons(tree, recorded):
+    """a comparison written the other way round than when the rules were confirmed is turned back (only when that orientation was recorded and this one was not)"""
+    n = 0
+    for c in ast.walk(tree):
+        if isinstance(c, ast.Compare) and len(c.ops) == 1 and type(c.ops[0]) in MIRROR:
+            mirror = MIRROR[type(c.ops[0])]()
+            here, there = _cmp_key(c.ops[0], c.left, c.comparators[0]), _cmp_key(mirror, c.comparators[0], c.left)
+            if here not in recorded and there in recorded:
+                c.left, c.comparators, c.ops = c.comparators[0], [c.left], [mirror]            # a < b is b > a
+                n += 1
+    return n
+
+
+# ---------------------------------------------------------------------------------------------------------------------
+# a two-way `if` that only chooses the value of one name is the conditional expression
+# ---------------------------------------------------------------------------------------------------------------------
+def merge_conditional_assignments(tree):
+    """if c: x = a  else: x = b   ->   x = a if c else b   (one plain name on both sides, nothing else in the branches); returns how many were merged"""
+    n = 0
+    for node in ast.walk(tree):
+        for field in ("body", "orelse", "finalbody"):
+            body = getattr(node, field, None)
+            if not (isinstance(body, list) and body and all(isinstance(s, ast.stmt) for s in body)):
+                continue
+            if field == "orelse" and isinstance(node, ast.If) and len(body) == 1:
+                continue                      # the last arm of an elif chain stays an arm of the chain
+            for k, st in enumerate(body):
+                if isinstance(st, ast.If) and len(st.body) == 1 and len(st.orelse) == 1 and all(
+                        isinstance(b, ast.Assign) and len(b.targets) == 1 and isinstance(b.targets[0], ast.Name) for b in (st.body[0], st.orelse[0])) \
+                        and st.body[0].targets[0].id == st.orelse[0].targets[0].id:
+                    new = ast.Assign(targets=[ast.Name(id=st.body[0].targets[0].id, ctx=ast.Store())], value=ast.IfExp(test=st.test, body=st.body[0].value, orelse=st.orelse[0].value))
+                    ast.copy_location(new, st)
+                    ast.fix_missing_locations(new)
+                    body[k] = new
+                    n += 1
+    return n
+
+
+# ---------------------------------------------------------------------------------------------------------------------
+# the else of a branch that always leaves is the rest of the block
+# ---------------------------------------------------------------------------------------------------------------------
+def unnest_else_after_leave(tree):
+    """if c: ... return / raise / continue / break   else: REST     ->     if c: ... ;  REST     (elif chains are kept as chains); returns how many"""
+    def leaves(body):
+        return bool(body) and isinstance(body[-1], (ast.Return, ast.Raise, ast.Continue, ast.Break))
+    n = 0
+    for node in ast.walk(tree):
+        for field in ("body", "orelse", "finalbody"):
+            body = getattr(node, field, None)
+            if not (isinstance(body, list) and body and all(isinstance(s, ast.stmt) for s in body)):
+                continue
+            new = []
+            for st in body:
+                if isinstance(st, ast.If) and st.orelse and leaves(st.body) and not (len(st.orelse) == 1 and isinstance(st.orelse[0], ast.If)):
+                    rest, st.orelse = st.orelse, []
+                    new.append(st)
+                    new.extend(rest)
+                    n += 1
+                else:
+                    new.append(st)
+            if len(new) != len(body):
+                setattr(node, field, new)
+    return n
